@@ -88,7 +88,7 @@ func Convert(value any, typ reflect.Type) (any, error) { //nolint: gocyclo
 		return rv.Convert(typ).Interface(), nil
 	}
 	if typ == timeType && rv.Kind() == reflect.String {
-		return ParseDate(value.(string))
+		return ParseDate(rv.String()) // the value may be of a defined string type
 	}
 	// currently unused:
 	// case reflect.PtrTo(r.Type()) == typ:
